@@ -106,6 +106,30 @@ theorem lt_np_of_script (w : World) (p : Pid) (i : Nat) (c : Cmd × String)
   rw [proc_oob w p hp] at h
   simp at h
 
+theorem count_le_one_of_nodup {α : Type _} [DecidableEq α] (l : List α) (q : α) (hnd : l.Nodup) : l.count q ≤ 1 := by
+  induction l with
+  | nil => simp
+  | cons a l ih =>
+    rw [List.nodup_cons] at hnd
+    rw [List.count_cons]
+    by_cases e : a = q
+    · subst e
+      have : l.count a = 0 := List.count_eq_zero.2 hnd.1
+      simp [this]
+    · have := ih hnd.2
+      simp [e]; exact this
+
+theorem count_eq_one_of_nodup_mem {α : Type _} [DecidableEq α] (l : List α) (q : α) (hnd : l.Nodup) (hm : q ∈ l) :
+    l.count q = 1 := by
+  have h1 := count_le_one_of_nodup l q hnd
+  have h2 : 0 < l.count q := List.count_pos_iff.2 hm
+  omega
+
+theorem count_map_succ (l : List Nat) (q : Nat) : (l.map (· + 1)).count (q + 1) = l.count q := by
+  induction l with
+  | nil => rfl
+  | cons a l ih => simp [List.count_cons, ih]
+
 /-- a left fold keeps whatever every step keeps -/
 theorem foldl_keeps {α β : Type _} (g : World → β) (f : World → α → World)
     (h : ∀ w a, g (f w a) = g w) (l : List α) (w : World) : g (l.foldl f w) = g w := by
